@@ -140,6 +140,9 @@ def entry(d):
     return (d, BY_NAME[d]) if isinstance(d, str) else MENU[d]
 
 
+RULE = RULE + " Base 'short' has wires of 2, 3 and 1 segments; RLC values include explicit zeros."
+
+
 def bounds(tier, seed):
     return dict(bases=list(BASES), menu=len(MENU), deviations=1 if tier == 'quick' else 2)
 
